@@ -1359,3 +1359,23 @@ canary('c20-iterator-wrapping-step', 'C20', 'crates/edp_elixir_terms/src/range.r
 benign('benign-c20-iterator-checked-step', 'C20', 'crates/edp_elixir_terms/src/range.rs', "self.current = self.current.saturating_add(self.range.step);", "self.current = self.current.checked_add(self.range.step).unwrap_or(i64::MAX);")
 canary('c19-table-guard-across-reply-wait', 'C19', 'crates/edp_node/src/node.rs', "        tracing::trace!(\"Looking up connection for node: {}\", remote_node);\n        if let Some(conn) = self.connections.get(remote_node) {", "        tracing::trace!(\"Looking up connection for node: {}\", remote_node);\n        let conn = self.connections.get(remote_node);\n        if let Some(conn) = conn.as_ref() {", 'table-guard-across')
 benign('benign-c19-clone-arc-release-guard', 'C19', 'crates/edp_node/src/node.rs', "        tracing::trace!(\"Looking up connection for node: {}\", remote_node);\n        if let Some(conn) = self.connections.get(remote_node) {", "        tracing::trace!(\"Looking up connection for node: {}\", remote_node);\n        let conn = self.connections.get(remote_node).map(|c| c.value().clone());\n        if let Some(conn) = conn {")
+canary('c17-outer-timeout-cancels-call', 'C17', 'crates/edp_node/src/node.rs', """        let response = self
+            .rpc_call_raw_with_timeout(remote_node, module, function, args, timeout)
+            .await?;
+        response.into_rex_response().map_err(Error::from)""", """        let response = tokio::time::timeout(
+            timeout,
+            self.rpc_call_raw_with_timeout(remote_node, module, function, args, timeout),
+        )
+        .await
+        .map_err(|_| Error::RpcTimeout(timeout))??;
+        response.into_rex_response().map_err(Error::from)""", 'cancels')
+canary('c19-oversize-recoverable-error', 'C19', CONN, """                return Err(Error::MessageTooLarge {
+                    size: len,
+                    max: MAX_MESSAGE_SIZE,
+                });
+            }
+
+            let mut buf = vec![0u8; len];""", """                return Err(Error::Protocol(format!("Message of {} bytes is too large", len)));
+            }
+
+            let mut buf = vec![0u8; len];""", 'body-unread')
